@@ -66,13 +66,15 @@ func (c *connection) onClose() error {
 		return nil
 	}
 
-	// closed by poller
+	// closed by poller, or by another Close/Detach call that is still on its way
 	// still need to change closing status to `user` since OnProcess should not be processed again
 	c.force(closing, user)
 
 	// user code should actively close the connection to recycle resources.
-	// poller already detached operator
-	return c.closeCallback(true, false)
+	// If the poller closed the connection it already detached the operator. If another user call
+	// won closeBy(user) it may not have detached yet, and when this call gets the processing lock
+	// first nobody else will: detach here (the operator prevents detaching twice).
+	return c.closeCallback(true, true)
 }
 
 // closeBuffer recycle input & output LinkBuffer.
